@@ -130,12 +130,15 @@ def order_append(tree):
     return True  # sqlglot's default
 
 
+class _NoneAsFalse(ast.NodeTransformer):
+    """a flag argument of a sqlglot node that is None (or missing) reads as False: `E or None`, `None if asc else True`"""
+    def visit_Constant(self, n):
+        return ast.copy_location(ast.Constant(value=False), n) if n.value is None else n
+
+
 def _strip_or_none(n):
-    """`E or None` (sqlglot reads a missing/None flag as False): the flag is E"""
-    if isinstance(n, ast.BoolOp) and isinstance(n.op, ast.Or) and len(n.values) == 2 \
-            and isinstance(n.values[1], ast.Constant) and n.values[1].value is None:
-        return n.values[0]
-    return n
+    import copy
+    return ast.fix_missing_locations(_NoneAsFalse().visit(copy.deepcopy(n)))
 
 
 def order_key_facts(tree, src):
